@@ -587,7 +587,19 @@ def _r2(ctx):
     if len(dummies) < 1:
         raise AnalysisError("fkm_goodman: dummy position labels [0, 1, 2] not found")
     stores = {}
+    # table-driven form: `for number, slope in slopes:` over a local literal table of (position, slope) pairs is unrolled first
+    from ..astutil import unroll_literal_loops, clone
+    body = []
     for s in f.node.body:
+        if isinstance(s, ast.For) and isinstance(s.iter, ast.Name):
+            dd = [x for x in f.node.body if isinstance(x, ast.Assign) and len(x.targets) == 1 and isinstance(x.targets[0], ast.Name) and
+                  x.targets[0].id == s.iter.id]
+            if len(dd) == 1 and isinstance(dd[0].value, (ast.Tuple, ast.List)):
+                s2 = clone(s)
+                s2.iter = clone(dd[0].value)
+                s = s2
+        body.append(s)
+    for s in unroll_literal_loops(body):
         if isinstance(s, ast.Assign) and isinstance(s.targets[0], ast.Subscript) and isinstance(s.targets[0].value, ast.Attribute) \
                 and s.targets[0].value.attr == "iloc":
             c = [c for c in calls_in(s.targets[0].slice) if isinstance(c.func, ast.Attribute) and c.func.attr == "get_indexer_for"]
